@@ -52,8 +52,11 @@ def main():
         for prop in [p for p in a.props.split(",") if p]:
             for seed in a.seeds.split(","):
                 t0 = time.time()
-                r = subprocess.run([os.path.join(VERIF, "check"), prop, "--tier", a.tier, "--seed", seed],
-                                   capture_output=True, text=True, env=env)
+                try:
+                    r = subprocess.run([os.path.join(VERIF, "check"), prop, "--tier", a.tier, "--seed", seed],
+                                       capture_output=True, text=True, env=env, timeout=2400)
+                except subprocess.TimeoutExpired:
+                    r = subprocess.CompletedProcess([], -9, stdout="TIMEOUT: check did not finish in 2400 s\n", stderr="")
                 viol = [l for l in r.stdout.splitlines() if l.startswith("VIOLATION")]
                 detail = [l.strip() for l in r.stdout.splitlines() if l.startswith("  site=")]
                 res["checks"][f"{prop}@{seed}"] = {"exit": r.returncode, "violations": len(viol),
